@@ -298,7 +298,9 @@ def run(ctx):
         rmeta.append(dict(prog=prog, script=script, nv=nv, status=res["status"]))
 
     for k in range(n_oracle):
-        prog, meta = nv_gen.gen_program(rng, dict(g1=g1_ok, g2=g2_ok, lreg=(k % 3 == 1)))
+        prog, meta = nv_gen.gen_program(rng, dict(g1=g1_ok, g2=g2_ok, lreg=(k % 3 == 1), perm=(k % 3 == 2)))
+        if meta.get("perm"):
+            stats["operand_registers_permuted"] = stats.get("operand_registers_permuted", 0) + 1
         if meta.get("lreg"):
             stats["load_add_only_register"] = stats.get("load_add_only_register", 0) + 1
         if not nv_gen.sdk_shaped(prog):
@@ -330,7 +332,8 @@ def run(ctx):
     for k in range(n_tie):
         hw = rng.random() < 0.35
         prog, meta = tie_variants(rng, impl, dict(g2=["cnot", "cphase", "mov"], load=rng.random() < 0.3,
-                                                  lreg=rng.random() < 0.3, hw_safe=hw and rng.random() < 0.7))
+                                                  lreg=rng.random() < 0.3, perm=rng.random() < 0.5,
+                                                  hw_safe=hw and rng.random() < 0.7))
         feat(prog)
         res = add_tie(prog, meta, rng.random() < 0.5, hw)
         ctx.note_case((str(prog), "tie", hw))
@@ -421,7 +424,7 @@ def search(ctx, impl, g1_ok, g2_ok, suspects):
             if [v for v in ctx.violations if v["key"] is None]:
                 return
     for _ in range(400):
-        prog, meta = nv_gen.gen_program(rng, dict(g1=g1_ok, g2=g2_ok, lreg=rng.random() < 0.5))
+        prog, meta = nv_gen.gen_program(rng, dict(g1=g1_ok, g2=g2_ok, lreg=rng.random() < 0.4, perm=rng.random() < 0.6))
         if not nv_gen.sdk_shaped(prog):
             continue
         script = [rng.randint(0, 1) for _ in range(meta["script_len"] * 4 + 2)]
